@@ -83,7 +83,7 @@ func checkStats(c statCase) (inf statInfo, v *verdict) {
 			return inf, nil
 		}
 		defer tb.Close()
-		px, err := tcpsim.Start(tcpsim.Opts{Hosts: []*host.Host{host.New(tb.Addr)}, ConnLimit: uint32(c.Limit), IdleTimeout: 2 * time.Second})
+		px, err := tcpsim.Start(tcpsim.Opts{Hosts: []*host.Host{host.New(tb.Addr)}, ConnLimit: uint32(c.Limit), IdleTimeout: 2 * time.Second, ConnectTimeout: 5 * time.Second})
 		if err != nil {
 			return inf, &verdict{"proxy-start", err.Error()}
 		}
@@ -102,7 +102,7 @@ func checkStats(c statCase) (inf statInfo, v *verdict) {
 		served bool
 	}
 	conns := map[int]*cconn{}
-	rejected := uint64(0)
+	rejected, rejectedForSure := uint64(0), uint64(0)
 	sampleGauges := func(where string) *verdict {
 		for _, g := range []string{"downstream.cx_active", "upstream.cx_active"} {
 			if x := gauge(svc, g); x > 1<<62 {
@@ -150,8 +150,13 @@ func checkStats(c statCase) (inf statInfo, v *verdict) {
 					cl.Close()
 					return inf, &verdict{"connection-not-served", fmt.Sprintf("%s: a new connection was closed without service although no limit is configured", where)}
 				}
+				// Not every such connection can be pinned on the limit: the proxy notices client closes asynchronously
+				// (so it may still be at the limit shortly after a close), and a TCP connection can also end unserved
+				// because the backend connect timed out on a busy machine. Certain: the model itself is at the limit
+				// (the proxy's count is never below the model's). Possible: every other unserved connection.
 				rejected++
 				if served() >= c.Limit {
+					rejectedForSure++
 					inf.rejected = true
 				}
 				cl.Close()
@@ -268,8 +273,8 @@ func checkStats(c statCase) (inf statInfo, v *verdict) {
 				}
 			}
 		}
-		if got := counter(svc, "downstream.cx_restricted"); got != rejected {
-			return fmt.Sprintf("downstream.cx_restricted = %d but %d connections were rejected by the limit", got, rejected)
+		if got := counter(svc, "downstream.cx_restricted"); got < rejectedForSure || got > rejected {
+			return fmt.Sprintf("downstream.cx_restricted = %d but %d connections were opened while the limit was reached and %d in all were closed without service", got, rejectedForSure, rejected)
 		}
 		return ""
 	}
